@@ -54,6 +54,11 @@ Theorem C05_slots_inv : forall evs n,
   NoDup (map tuser (filter processing (mts s'))).
 Proof. intros evs n A. exact (slots_inv evs (init n) (init_inv n) A). Qed.
 
+(* The code-side half of A1, read off the source: the task created for an upload moves it to
+   INITIALIZING in its first statement (before any await that can suspend on the network). *)
+Theorem C05_first_segment_initializes : FIRST_SEGMENT_INITIALIZES = true.
+Proof. reflexivity. Qed.
+
 (* Without A1 the invariant is false of the model (two cycles before the first task ran). *)
 Theorem C05_slots_inv_without_A1_refuted : exists evs,
   let s' := run (init 1) evs in
